@@ -152,6 +152,7 @@ PROPS = {
     },
     "C05": {
         "bin": "m_sema",
+        "engines": [{"bin": "m_sema", "share": 3}, {"bin": "m_types", "share": 1}],
         "build": BUILD_VH,
         "level": "exploration",
         "budget": {"quick": 20, "thorough": 600},
@@ -220,6 +221,7 @@ PROPS = {
     },
     "C18": {
         "bin": "m_sema",
+        "engines": [{"bin": "m_sema", "share": 3}, {"bin": "m_types", "share": 1}],
         "build": BUILD_VH,
         "level": "exploration",
         "budget": {"quick": 20, "thorough": 600},
@@ -252,7 +254,9 @@ PROPS = {
     },
     "C19": {
         "bin": "m_text",
-        "build": BUILD_VTEXT,
+        "engines": [{"bin": "m_text", "share": 3, "build": BUILD_VTEXT},
+                    {"bin": "m_types", "share": 1, "build": BUILD_VH}],
+        "build": [],
         "level": "exploration",
         "budget": {"quick": 15, "thorough": 400},
         "timeout": {"quick": 900, "thorough": 7200},
